@@ -88,6 +88,16 @@ claim('C13', 'must-check gates per exit and per completed loop iteration + certi
       'ReadCertificateFile(Join(SysPath(truststore/x509/type/name), entry.Name())) and is what success exits return (nothing cached or shared); every failing exit returns nil and no failing edge continues the loop; an empty result fails. '
       'Certificate parsing is trusted to notation-core-go / crypto/x509.', 'DESIGN.md 2/C13')
 
+claim('C14', 'typestate of the temp-file protocol + who-may-write inventory + parameter-use confinement + constant analysis (key / temp alphabets)',
+      'Static: decides the structural preconditions under which POSIX rename makes an entry absent-or-complete — the entry is written only by a writer that creates a fresh file with os.CreateTemp in the cache root, writes the whole content, closes, '
+      'then renames it over Join(root, key(url)), each step only after the previous succeeded, the destination path reaching nothing but Rename; nothing else in verifier/crl mutates files; keys are the full hex SHA-256 of the URL and temp names contain a non-hex rune; '
+      'the reader performs exactly one whole-file read per Get. This is the clause the record\'s own mutation (in-place write) breaks. NOT decided: the interleavings and crash points themselves, which are reduced to the trusted atomicity of rename(2) within one directory; no durability claim.', 'DESIGN.md 2/C14',
+      'The hook proposed in the property record (pausing WriteFile at step boundaries) belongs to a dynamic technique and is not used.')
+claim('C15', 'reader/writer field agreement + must-check gates (incl. disjunctive delta gates) + path provenance (URL confinement) on SSA',
+      'Static, all-paths: Set stores bundle.X.Raw into entry field X and Get parses field X into bundle.X under distinct JSON names; Get succeeds only through read, decode, base parse, delta parse when stored, base expiry and delta expiry when present; '
+      'the expiry helper fails on zero NextUpdate and maps time.Now().After(nextUpdate) to the miss sentinel; a missing file is a miss; every file-system path of Get and Set is Join(root, hex(sha256(url))) of the full unsliced hash of exactly the URL string; '
+      'Set refuses nil bundle/base and propagates marshal and write errors, writing the marshalled entry. Byte fidelity through std parsers and SHA-256 collision freedom are trusted.', 'DESIGN.md 2/C15')
+
 NA_REASON = {}
 
 def main():
